@@ -220,7 +220,7 @@ def all_scenarios():                                   # noqa: F811
 
 def run_scenario(sc, prop="C20"):                      # noqa: F811
     req = sc["req"]()
-    sent, err, a = run_scp(sc["cls"], req, sc["cx"], sc["handlers"], setup=sc.get("setup"))
+    sent, err, a = run_scp(sc["cls"], req, sc["cx"], sc["handlers"], setup=sc.get("setup"), method=sc.get("method", "SCP"))
     if prop == "C22":
         what = c22_verdict(sent, sc.get("n")) if err is None else None
         exp = "Pending: remaining+completed+failed+warning == N, monotone; final: completed+failed+warning <= N"
@@ -230,3 +230,109 @@ def run_scenario(sc, prop="C20"):                      # noqa: F811
     if what:
         return dict(what=what, observed=[repr(s) for s in sent] + ([f"escaped: {err!r}"] if err else []), expected=exp)
     return None
+
+
+# ---------------------------------------------------------------------------------------------
+# single-response SCPs: DIMSE-N, C-STORE, C-ECHO  (C20, C21)
+# ---------------------------------------------------------------------------------------------
+from pynetdicom.dimse_primitives import N_ACTION, N_CREATE, N_DELETE, N_EVENT_REPORT, N_GET, N_SET  # noqa: E402
+
+PRINT_JOB = "1.2.840.10008.5.1.1.14"
+VERIF = "1.2.840.10008.1.1"
+
+
+def n_req(cls, msg_id=7, with_instance=True):
+    r = cls()
+    r.MessageID = msg_id
+    if cls in (N_CREATE, N_EVENT_REPORT, C_STORE):
+        r.AffectedSOPClassUID = PRINT_JOB if cls is not C_STORE else CT
+        if with_instance:
+            r.AffectedSOPInstanceUID = "1.2.3.4"
+    elif cls is C_ECHO:
+        r.AffectedSOPClassUID = VERIF
+    else:
+        r.RequestedSOPClassUID = PRINT_JOB
+        r.RequestedSOPInstanceUID = "1.2.3.4"
+    if cls is N_ACTION:
+        r.ActionTypeID = 1
+    if cls is N_EVENT_REPORT:
+        r.EventTypeID = 1
+    if cls is C_STORE:
+        r.Priority = 2
+        r.DataSet = BytesIO(encode(inst(), True, True))
+    return r
+
+
+class _GenericN(SCm.ServiceClass):
+    """ServiceClass.SCP raises NotImplementedError; the DIMSE-N implementations are reached through the dispatching
+    subclasses - this replay calls the implementation methods directly, as those subclasses do"""
+    statuses = SCm.GENERAL_STATUS
+
+
+SINGLE_SCPS = {
+    "_n_action_scp": (N_ACTION, evt.EVT_N_ACTION, True),
+    "_n_create_scp": (N_CREATE, evt.EVT_N_CREATE, True),
+    "_n_delete_scp": (N_DELETE, evt.EVT_N_DELETE, False),
+    "_n_event_report_scp": (N_EVENT_REPORT, evt.EVT_N_EVENT_REPORT, True),
+    "_n_get_scp": (N_GET, evt.EVT_N_GET, True),
+    "_n_set_scp": (N_SET, evt.EVT_N_SET, True),
+    "StorageServiceClass.SCP": (C_STORE, evt.EVT_C_STORE, False),
+    "VerificationServiceClass.SCP": (C_ECHO, evt.EVT_C_ECHO, False),
+}
+
+
+def single_returns(pair):
+    """(description, handler return value | Exception, obligation tag)"""
+    reply = Dataset()
+    reply.PatientName = "X"
+    if pair:
+        yield "returns None instead of a (status, dataset) pair", None, "returns-None"
+        yield "returns a bare status 0x0000 instead of a pair", 0x0000, "returns-bare-status"
+        yield "returns a 3-tuple", (0x0000, None, None), "returns-3-tuple"
+        yield "returns (0x0000, dataset)", (0x0000, reply), ""
+        yield "returns (0x0000, None)", (0x0000, None), ""
+        yield "returns (0x0000, 'not a dataset')", (0x0000, "not a dataset"), ""
+        yield "returns (status dataset 0x0000, dataset)", (status_ds(0x0000), reply), ""
+        yield "returns (dataset without Status, None)", (Dataset(), None), ""
+        yield "returns ('x', None)", ("x", None), ""
+        yield "returns (70000, None)", (70000, None), "encodable"
+        yield "returns (-1, None)", (-1, None), "encodable"
+        yield "returns (0xFFF0, None) (unknown status)", (0xFFF0, None), ""
+        yield "returns (status dataset carrying MessageIDBeingRespondedTo=99, None)", (status_ds(0x0000, MessageIDBeingRespondedTo=99), None), "message-id"
+    else:
+        yield "returns 0x0000", 0x0000, ""
+        yield "returns a status dataset", status_ds(0x0000), ""
+        yield "returns a dataset without Status", Dataset(), ""
+        yield "returns 'x'", "x", ""
+        yield "returns None", None, ""
+        yield "returns 70000", 70000, "encodable"
+        yield "returns -1", -1, "encodable"
+        yield "returns a (status, dataset) pair", (0x0000, None), ""
+        yield "returns status dataset carrying MessageIDBeingRespondedTo=99", status_ds(0x0000, MessageIDBeingRespondedTo=99), "message-id"
+    yield "raises", RuntimeError("x"), ""
+
+
+def single_scenarios():
+    for name, (cls, ev, pair) in SINGLE_SCPS.items():
+        for desc, ret, tag in single_returns(pair):
+            def h(event, ret=ret):
+                if isinstance(ret, Exception):
+                    raise ret
+                return ret
+            if name.endswith(".SCP"):
+                svc_cls = getattr(SCm, name.split(".")[0])
+                method = "SCP"
+            else:
+                svc_cls, method = _GenericN, name
+            sop = {C_STORE: CT, C_ECHO: VERIF}.get(cls, PRINT_JOB)
+            yield dict(desc=f"{name}; handler {desc}", tag=tag, kind="single", cls=svc_cls, method=method,
+                       req=lambda cls=cls: n_req(cls), cx=context(sop), handlers={ev: (h, None)}, repo=False,
+                       applies=lambda ob, name=name, tag=tag: (name in ob) and (tag in ob if tag else True))
+
+
+_all2 = all_scenarios
+
+
+def all_scenarios():                                   # noqa: F811
+    yield from _all2()
+    yield from single_scenarios()
